@@ -97,7 +97,7 @@ def describe(tier):
         "rule": (
             f"{len(ENC)} encoders {[e.name for e in ENC]}, each with its documented domain, an own encoder and the expected (type, label). "
             f"ALL stacks of height 1..{HEIGHT[tier]} x {len(PAYLOADS)} payloads (URL+exe, IP, e-mail+domain, Windows path, 600-byte padded text) x {len(EMBED)} embeddings x depth "
-            f"limits {{height, height+1, 10}}, ALL stacks of height {H_PARTIAL[tier]} x 2 payloads x 2 embeddings at depth 10, every single encoder repeated 1..11 times, and every encoder around payloads of 1 kB .. 16 kB (thorough .. 70 kB, crossing 65536) with the indicators at the end "
+            f"limits {{height, height+1, 10}} (and limit 1 followed by an in-place scan_node(tree) and a second flatten(), which must equal the flatten() of a copy of the expanded tree), ALL stacks of height {H_PARTIAL[tier]} x 2 payloads x 2 embeddings at depth 10, every single encoder repeated 1..11 times, and every encoder around payloads of 1 kB .. 16 kB (thorough .. 70 kB, crossing 65536) with the indicators at the end "
             "(depth limit 10 bites at layer 11). Isolation histories: for EVERY entry i of the default registry (and list operations clear/reverse/del/append/insert/slice-assign) another default scanner's public `decoders` list is customised in place, then a brand-new default Multidecoder() must peel every height-1 stack and 3 height-2 stacks. Stacks whose intermediate text leaves the next encoder's domain, and embeddings that are not neutral for the "
             "outermost encoder (bare base64/hex next to LF-joined words; cmd with trailing text), are pruned and counted. Oracle = the stack itself: a chain "
             "of nested nodes, outermost first, node i has value = plaintext i and the type/label of layer i, the outermost covers exactly the blob; "
@@ -313,6 +313,18 @@ def check(rec, stack, pi, ei, depth, tier_w):
         if missing:
             rec.violation("C02.payload-indicators", f"indicator-missing|{layers[-1][0].name}", w,
                           f"stack {names}: indicators of the plaintext payload not found beneath the innermost node: {core.short(missing, 200)}", size)
+    # flatten of a tree that is expanded further in place (scan with a small limit, flatten, scan_node on the same tree, flatten again):
+    # the text is a function of the tree as it is NOW
+    if depth < len(layers) + 1 and _OVERRIDE is None:
+        ok, _f1 = rec.guard("C02.total", w, size, tree.flatten)
+        ok2, _ = rec.guard("C02.total", w, size, md().scan_node, tree, 10)
+        if ok and ok2:
+            ok3, f2 = rec.guard("C02.total", w, size, tree.flatten)
+            f3 = trees.mknode(trees.tup(tree)).flatten()
+            if ok3 and f2 != f3:
+                rec.violation("C02.flatten", f"flatten-stale-after-expansion|{layers[0][0].name}", w,
+                              f"stack {names}: scan(depth {depth}), flatten(), scan_node(tree) and flatten() again gives {core.short(f2, 120)}; a copy of the same tree flattens to {core.short(f3, 120)}", size)
+        return
     # flatten ------------------------------------------------------------------------------------------------------
     if depth >= len(layers) + 1:
         inner = pay_flat
@@ -342,7 +354,7 @@ def run_unit(unit, rec):
                         rec.note("pruned: intermediate text outside the next encoder's domain")
                         continue
                     for ei in range(len(EMBED)):
-                        for depth in sorted({h, h + 1, 10}):
+                        for depth in sorted({h, h + 1, 10} | ({1} if h >= 2 and ei < 2 else set())):
                             check(rec, stack, pi, ei, depth, None)
                             n += 1
         rec.sample({"innermost": innermost, "heights": list(range(1, H + 1)), "cases": n, "last_stack_outermost_first": list(stack[::-1])})
